@@ -27,53 +27,45 @@ theorem SameFor.refl (m : Name) (e : Env) : SameFor m e e := ⟨rfl, rfl, fun _ 
 theorem ownedBy_elem (m : Name) (p : Prod) (val : Val) (h : p.1 ≠ m) : ownedBy m (val.elem p) = false := by
   cases val <;> simp [Val.elem, ownedBy, h]
 
-theorem partBy_addPath (f : Elem → Bool) (e : Env) (var var2 : Str) (x : Elem) (app : Bool) (hx : f x = false) :
-    partBy f (e.addPath var x app) var2 = partBy f e var2 := by
+theorem partBy_addPath (f : Elem → Bool) (e : Env) (var var2 : Str) (xs : List Elem) (app : Bool)
+    (hx : ∀ x ∈ xs, f x = false) : partBy f (e.addPath var xs app) var2 = partBy f e var2 := by
   by_cases hv : var2 = var
   · subst hv
-    have : (e.addPath var2 x app).pathOf var2 =
-        PathAlg.uniq (if app then e.pathOf var2 ++ [x] else x :: e.pathOf var2) := by
-      cases app <;> simp [Env.addPath, Env.pathOf, aget_aset_same, PathAlg.applyL, PathAlg.appendL, PathAlg.prependL]
     unfold partBy
-    rw [this, PathAlg.filter_uniq, PathAlg.uniq_idem]
-    cases app <;> simp [hx]
-  · unfold partBy; rw [pathOf_addPath_other e var var2 x app hv]
+    rw [pathOf_addPath_same, PathAlg.filter_uniq, PathAlg.uniq_idem, filter_addAll f app xs hx]
+  · unfold partBy; rw [pathOf_addPath_other e var var2 xs app hv]
 
-theorem partBy_removePath (f : Elem → Bool) (e : Env) (var var2 : Str) (x : Elem) (hx : f x = false) :
-    partBy f (e.removePath var x) var2 = partBy f e var2 := by
+theorem partBy_removePath (f : Elem → Bool) (e : Env) (var var2 : Str) (xs : List Elem)
+    (hx : ∀ x ∈ xs, f x = false) : partBy f (e.removePath var xs) var2 = partBy f e var2 := by
   by_cases hv : var2 = var
   · subst hv
-    have : (e.removePath var2 x).pathOf var2 = PathAlg.uniq ((e.pathOf var2).filter (· != x)) := by
-      simp [Env.removePath, Env.pathOf, aget_aset_same, PathAlg.applyL, PathAlg.removeL]
     unfold partBy
-    rw [this, PathAlg.filter_uniq, PathAlg.uniq_idem, List.filter_filter]
-    congr 1
-    apply List.filter_congr
-    intro a _
-    by_cases ha : a = x
-    · subst ha; simp [hx]
-    · simp [ha]
-  · unfold partBy; rw [pathOf_removePath_other e var var2 x hv]
+    rw [pathOf_removePath_same, PathAlg.filter_uniq, PathAlg.uniq_idem, filter_removeAll f xs hx]
+  · unfold partBy; rw [pathOf_removePath_other e var var2 xs hv]
 
 theorem apply_dirs (fwd : Bool) (p : Prod) (a : Act) (s : St) : (a.apply fwd p s).env.dirs = s.env.dirs := by
   cases a <;> cases fwd <;> rfl
 
 /-- an action whose element (if it is a path action) is not selected by `f` leaves the `f`-part of every path variable alone -/
 theorem partBy_apply (f : Elem → Bool) (fwd : Bool) (p : Prod) (a : Act) (s : St)
-    (hf : ∀ v val app, a = .prepend v val app → f (val.elem p) = false) (var : Str) :
+    (hf : ∀ v vals app, a = .prepend v vals app → ∀ val ∈ vals, f (val.elem p) = false) (var : Str) :
     partBy f (a.apply fwd p s).env var = partBy f s.env var := by
   cases a with
-  | prepend v val app =>
+  | prepend v vals app =>
+    have hx : ∀ x ∈ vals.map (Val.elem p), f x = false := by
+      intro x hxm
+      obtain ⟨val, hval, rfl⟩ := List.mem_map.1 hxm
+      exact hf v vals app rfl val hval
     cases fwd
-    · exact partBy_removePath f s.env v var _ (hf v val app rfl)
-    · exact partBy_addPath f s.env v var _ app (hf v val app rfl)
+    · exact partBy_removePath f s.env v var _ hx
+    · exact partBy_addPath f s.env v var _ app hx
   | set v val => cases fwd <;> rfl
   | alias k v => cases fwd <;> rfl
-  | dep n o j v x => rfl
+  | dep n o j v x t => rfl
 
 theorem ownPart_apply (m : Name) (fwd : Bool) (p : Prod) (a : Act) (s : St) (hp : p.1 ≠ m) (var : Str) :
     ownPart m (a.apply fwd p s).env var = ownPart m s.env var :=
-  partBy_apply (ownedBy m) fwd p a s (fun _ val _ _ => ownedBy_elem m p val hp) var
+  partBy_apply (ownedBy m) fwd p a s (fun _ _ _ _ val _ => ownedBy_elem m p val hp) var
 
 /-- nothing done on behalf of the subjects in `S` touches what belongs to a name outside `S` -/
 theorem sameFor_subjInv (cfg : Cfg) (S : Nat → Name → Prop) (m : Name) (hm : ∀ k, ¬ S k m) (e0 : Env) :
@@ -134,17 +126,17 @@ leads from `top` to `n` -/
 inductive Within (db : Db) (top : Name) : Nat → Name → Prop where
   | root : Within db top 0 top
   | step {k : Nat} {a n : Name} {d : Decl} {g : Guard} {o j : Bool} {v : Option VerReq} {x : Option VExpr} :
-      Within db top k a → d ∈ db.decls → d.name = a → (g, Act.dep n o j v x) ∈ d.table → Within db top (k + 1) n
+      Within db top k a → d ∈ db.decls → d.name = a → (g, Act.dep n o j v x t) ∈ d.table → Within db top (k + 1) n
 
 theorem within_closedAt (cfg : Cfg) (top : Name) (N : Nat) (hN : cfg.maxDepth = some N) :
     ClosedAt cfg (fun k n => Within cfg.db top k n ∧ k ≤ N) := by
-  intro d hd k hS hmd g n o j v x hg
+  intro d hd k hS hmd g n o j v x t hg
   have hk : k ≠ N := fun e => hmd (by rw [hN, e])
   exact ⟨Within.step hS.1 hd rfl hg, by omega⟩
 
 theorem within_closedAt_unbounded (cfg : Cfg) (top : Name) :
     ClosedAt cfg (fun _ n => ∃ k, Within cfg.db top k n) := by
-  intro d hd k hS _ g n o j v x hg
+  intro d hd k hS _ g n o j v x t hg
   obtain ⟨k', hk'⟩ := hS
   exact ⟨k' + 1, Within.step hk' hd rfl hg⟩
 
